@@ -2,7 +2,10 @@ module verif/harness
 
 go 1.21
 
-require github.com/compose-spec/compose-go/v2 v2.0.0
+require (
+	github.com/compose-spec/compose-go/v2 v2.0.0
+	github.com/sirupsen/logrus v1.9.0
+)
 
 require (
 	github.com/distribution/reference v0.5.0 // indirect
@@ -11,7 +14,9 @@ require (
 	github.com/go-viper/mapstructure/v2 v2.0.0 // indirect
 	github.com/mattn/go-shellwords v1.0.12 // indirect
 	github.com/opencontainers/go-digest v1.0.0 // indirect
-	github.com/sirupsen/logrus v1.9.0 // indirect
+	github.com/xeipuuv/gojsonpointer v0.0.0-20180127040702-4e3ac2762d5f // indirect
+	github.com/xeipuuv/gojsonreference v0.0.0-20180127040603-bd5ef7bd5415 // indirect
+	github.com/xeipuuv/gojsonschema v1.2.0 // indirect
 	golang.org/x/exp v0.0.0-20240112132812-db7319d0e0e3 // indirect
 	golang.org/x/sync v0.3.0 // indirect
 	golang.org/x/sys v0.1.0 // indirect
